@@ -10,12 +10,20 @@
   decoder reads them back as exactly one value, equal to the tree's value up to the documented
   representation change (unsigned above MaxInt64 ↦ high-precision string), exactly equal
   otherwise; and the specification's own round trip `decode ∘ wire = value`.
+
+  JSON ENCODER (namespace `SF.PropsJson.C07`): for EVERY byte string (valid UTF-8 or not) and
+  both escape modes the string token is a valid RFC 8259 string (own structural recogniser), has
+  no byte < 0x20 (nor `<`, `>`, `&` with HTML escaping), and the reference decoder reads it back
+  as the string itself (invalid bytes ↦ U+FFFD); every 64-bit integer is written as its canonical
+  decimal literal; every float-free document is accepted by the reference decoder with the
+  document's value.
 -/
 import SF.Proofs.CborEnc
 import SF.Proofs.CborDecode
 import SF.Props.C01
 import SF.Proofs.UbjEncTop
 import SF.Proofs.UbjApproxOracle
+import SF.Proofs.JsonEncTop
 namespace SF.Props.C07
 open SF SF.Cbor SF.Cbor.Cst SF.Props.C01
 
@@ -77,3 +85,50 @@ theorem ubj_spec_roundtrip_stream (is : List UItem) (h : okList is = true) :
 theorem approx_is_oracle (a b : Val) : approx a b = SF.Ops.approxUbj a b := SF.Ubjson.Enc.approx_eq_oracle a b
 
 end SF.PropsUbj.C07
+
+/-! ## JSON encoder (SF/Json/Enc.lean; proofs SF/Proofs/JsonEnc*.lean) -/
+
+namespace SF.PropsJson.C07
+open SF SF.Json SF.Json.Enc SF.Json.Float ETree
+open SF.Props.JsonEnc
+
+/-- C07 (string core): for EVERY byte string and both escape modes the bytes written for a
+string / key are a valid RFC 8259 string token (recogniser `isJsonString`: quote, then legal
+unescaped ASCII, well-formed RFC 3629 sequences, or well-formed escapes, closing quote) -/
+theorem string_token_valid (html : Bool) (s : Bytes) : isJsonString (strToken html s) = true :=
+  SF.Props.JsonEnc.string_token_valid html s
+
+/-- … every control byte is escaped; with HTML escaping also `&`, `<`, `>` -/
+theorem string_token_bytes (html : Bool) (s : Bytes) :
+    (∀ x ∈ strToken html s, 0x20 ≤ x.toNat) ∧
+    (html = true → ∀ x ∈ strToken html s, x.toNat ≠ 0x26 ∧ x.toNat ≠ 0x3C ∧ x.toNat ≠ 0x3E) :=
+  SF.Props.JsonEnc.string_token_bytes html s
+
+/-- … and the reference decoder reads the token back as the string itself (each byte outside a
+well-formed UTF-8 sequence replaced by U+FFFD; `sanitize s = s` for valid UTF-8) -/
+theorem string_token_decode (html : Bool) (s : Bytes) :
+    ∃ v, Cst.decode (strToken html s) = .ok [v] false ∧ v = .str (sanitize s) :=
+  SF.Props.JsonEnc.string_token_decode html s
+
+theorem sanitize_of_valid (s : Bytes) (h : validUtf8 s = true) : sanitize s = s :=
+  SF.Props.JsonEnc.sanitize_of_valid s h
+
+/-- C07 (integer core): every integer in the range of its kind is written as its canonical
+decimal literal, which the reference decoder reads back as that integer -/
+theorem int_literal_decode (o : Enc) (k : NumKind) (v : Int) (h : k.inRange v = true) :
+    text o (.num k v) = intLit v ∧ ∃ x, Cst.decode (intLit v) = .ok [x] false ∧ x = .int v :=
+  SF.Props.JsonEnc.int_literal_decode o k v h
+
+theorem int_literal_valid (v : Int) : isJsonInt (intLit v) = true ∧ jsonIntValue (intLit v) = v :=
+  SF.Props.JsonEnc.int_literal_valid v
+
+/-- C07 / C01 (structure): for EVERY float-free document with in-range numbers and valid UTF-8
+strings — any nesting, empty containers, any announced lengths — the encoder succeeds and the
+reference decoder accepts its whole output as exactly one value: the document's value -/
+theorem json_output_decodes (o : Enc) (t : ETree) (hp : plain t = true) (hu : utf8Tree t = true)
+    (hw : o.w = {}) (ha : o.inArray.current = false) :
+    (run o (t.events.map .ev)).2 = (none, .ok) ∧
+    ∃ v, Cst.decode (encAll o (t.events.map .ev)) = .ok [v] false ∧ v = t.value :=
+  SF.Props.JsonEnc.json_output_decodes o t hp hu hw ha
+
+end SF.PropsJson.C07
